@@ -18,6 +18,7 @@
 #include <datatypes/heap.h>
 #include <lp/lp.h>
 #include <mm/msg_allocator.h>
+#include <verif/hooks.h>
 
 #include <stdalign.h>
 #include <stdatomic.h>
@@ -92,6 +93,7 @@ void msg_queue_global_fini(void)
 static inline void msg_queue_insert_queued(void)
 {
 	struct lp_msg *m = atomic_exchange_explicit(&queues[rid].list, NULL, memory_order_acquire);
+	VERIF_POINT(VP_Q_DRAIN, m, 0, 0, 0);
 	while(m != NULL) {
 		struct q_elem qe = {.t = m->dest_t, .m = m};
 		heap_insert(mqp, q_elem_is_before, qe);
@@ -133,7 +135,9 @@ void msg_queue_insert(struct lp_msg *msg)
 {
 	_Atomic(struct lp_msg *) *list_p = &queues[lid_to_rid(msg->dest)].list;
 	msg->next = atomic_load_explicit(list_p, memory_order_relaxed);
+	VERIF_POINT(VP_Q_PRECAS, msg, 0, 0, 0);
 	while(unlikely(!atomic_compare_exchange_weak_explicit(list_p, &msg->next, msg, memory_order_release,
 	    memory_order_relaxed)))
 		spin_pause();
+	VERIF_POINT(VP_Q_PUSH, msg, lid_to_rid(msg->dest), 0, 0);
 }
